@@ -101,7 +101,9 @@ def rk_name_id(ctx):
         k, v = run(it, ft, [s0, q], {}, None)
         r.check(k == "ok" and set(s0) == want, "C18.RK", ft.qual, f"types from {sorted(q)}", f"extract_feature_types -> {sorted(s0)}; every type-like qualifier gives {sorted(want)}", ft)
     mq = repo.fn(f"{F}:merge_qualifiers")
-    ds = [{}, {"a": ["2", "1", "2"]}, {"a": ["3"], "b": ["x"]}, {"b": ["y", "x"], "c": ["z"]}, {"c": []}]
+    ds = [{}, {"a": ["2", "1", "2"]}, {"a": ["3"], "b": ["x"]}, {"b": ["y", "x"], "c": ["z"]}, {"c": []},
+          # values of different lengths: the documented order is plain string order, not "natural" / by length
+          {"a": ["10", "9"], "db_xref": ["GeneID:99", "GeneID:100"]}, {"db_xref": ["GeneID:1000", "X"], "b": ["exon10", "exon2"]}]
     for a in ds:
         for b in ds:
             k, v = run(it, mq, [dict(a), dict(b)], {}, None)
